@@ -663,6 +663,12 @@ static int ec_insert(char *loc, char *cmd, char *arg, char *txt)
 		end = beg;
 	n = lbuf_len(xb);
 	lbuf_edit(xb, txt, beg, end);
+	if (cmd[0] == 'c') {	/* the new lines are not candidates of a running global */
+		int i, d;
+		for (i = beg; i < end + lbuf_len(xb) - n; i++)
+			for (d = 1; d <= xgdep; d++)
+				lbuf_globget(xb, i, d);
+	}
 	xrow = MIN(lbuf_len(xb) - 1, end + lbuf_len(xb) - n - 1);
 	return 0;
 }
